@@ -1014,7 +1014,7 @@ def compare(lat: dict, ref: dict, seg) -> list[dict]:
     # total length = sum of the file's element lengths
     try:
         tot = float(torch.as_tensor(seg.length).reshape(-1)[0])
-        if abs(tot - ref["length"]) > LEN_RTOL * max(1.0, abs(ref["length"])) and not out:
+        if not abs(tot - ref["length"]) <= LEN_RTOL * max(1.0, abs(ref["length"])) and not out:
             out.append(D("Segment.length", f"Segment.length = {tot!r}, file lengths sum to {ref['length']!r}", [], ["l"]))
     except Exception as ex:
         out.append(D("Segment.length", f"Segment.length raised {type(ex).__name__}: {ex}", [], ["l"]))
